@@ -134,9 +134,26 @@ def _fold_str(e):
     return None
 
 
+def _is_none(x):
+    """True/False when `x` certainly is / is not None, else None."""
+    if isinstance(x, ast.Constant):
+        return x.value is None
+    if isinstance(x, (ast.Tuple, ast.List, ast.Dict, ast.Set, ast.Lambda,
+                      ast.JoinedStr)):
+        return False
+    return None
+
+
 def _const_truth(t):
     if isinstance(t, ast.Constant):
         return bool(t.value)
+    if isinstance(t, ast.Compare) and len(t.ops) == 1 and isinstance(
+            t.ops[0], (ast.Is, ast.IsNot)):
+        a, b = _is_none(t.left), _is_none(t.comparators[0])
+        if b is True and a is not None:
+            return a if isinstance(t.ops[0], ast.Is) else not a
+        if a is True and b is not None:
+            return b if isinstance(t.ops[0], ast.Is) else not b
     if isinstance(t, ast.UnaryOp) and isinstance(t.op, ast.Not):
         v = _const_truth(t.operand)
         return None if v is None else not v
@@ -150,12 +167,44 @@ def _prune_const_ifs(body):
             v = _const_truth(st.test)
             if v is not None:
                 out.extend(_prune_const_ifs(st.body if v else st.orelse))
+                if out and isinstance(out[-1], (ast.Continue, ast.Break,
+                                                ast.Return, ast.Raise)):
+                    break
                 continue
             st.body = _prune_const_ifs(st.body) or [ast.copy_location(
                 ast.Pass(), st)]
             st.orelse = _prune_const_ifs(st.orelse)
         out.append(st)
+        if isinstance(st, (ast.Continue, ast.Break, ast.Return, ast.Raise)):
+            break                 # the rest of the block is unreachable
     return out
+
+
+def _propagate_unpack(body, funcs):
+    """`a, b = (x, y)` followed by statements that never rebind a, b: the
+    names are replaced by the cells (after a table row was substituted)."""
+    out = []
+    i = 0
+    body = list(body)
+    while i < len(body):
+        st = body[i]
+        if isinstance(st, ast.Assign) and len(st.targets) == 1 and \
+                isinstance(st.targets[0], (ast.Tuple, ast.List)) and \
+                isinstance(st.value, (ast.Tuple, ast.List)) and len(
+                    st.targets[0].elts) == len(st.value.elts) and all(
+                    isinstance(x, ast.Name) for x in st.targets[0].elts) \
+                and all(_simple_cell(c) for c in st.value.elts):
+            names = [x.id for x in st.targets[0].elts]
+            rest = body[i + 1:]
+            if not (set(names) & _stores(rest)):
+                sub = _Subst(dict(zip(names, st.value.elts)), funcs)
+                body = body[:i + 1] + sub.visit_all(rest)
+                out.append(st)
+                i += 1
+                continue
+        out.append(st)
+        i += 1
+    return out + []
 
 
 class _Subst(ast.NodeTransformer):
@@ -415,8 +464,8 @@ class _Unroller:
             return None
         funcs = cls_scope.funcs if cls_scope is not None else set()
         if default is not None and isinstance(t, ast.Name):
-            tail = [copy.deepcopy(x) for x in _Subst(
-                {names[0]: default}, funcs).visit_all(rest)]
+            tail = _prune_const_ifs(_Subst(
+                {names[0]: default}, funcs).visit_all(rest))
         elif default is not None:
             return None
         else:
@@ -429,7 +478,8 @@ class _Unroller:
             body = sub.visit_all(rest) or [ast.copy_location(ast.Pass(), st)]
             for b in body:
                 _fold_getattr(b)
-            body = _prune_const_ifs(body)
+            body = _prune_const_ifs(_propagate_unpack(
+                _prune_const_ifs(body), funcs))
             test = ast.Compare(left=copy.deepcopy(k), ops=[ast.Eq()],
                                comparators=[copy.deepcopy(key)])
             tail = [ast.copy_location(ast.If(test=test, body=body,
